@@ -1885,7 +1885,7 @@ def np_all(a, axis=None):
     if t is None:
         return sbool(_truthy(_rawsc(a)))
     if axis is not None:
-        raise OutOfReach("np.all with axis")
+        return _anyall_axis(t, axis, want_all=True)
     return sbool(_forall_tensor(t))
 
 
@@ -1894,9 +1894,43 @@ def np_any(a, axis=None):
     if t is None:
         return sbool(_truthy(_rawsc(a)))
     if axis is not None:
-        raise OutOfReach("np.any with axis")
+        return _anyall_axis(t, axis, want_all=False)
     neg = STensor(t.rshape, lambda *idx: b_not(_truthy(t._elem(*idx))), "b")
     return sbool(b_not(_forall_tensor(neg)))
+
+
+def _anyall_axis(t, axis, want_all):
+    """np.any / np.all along one axis: a bool tensor over the remaining axes"""
+    if isinstance(t, MaskedAxisTensor) or not isinstance(axis, int):
+        raise OutOfReach("np.any / np.all along several axes or on a masked tensor")
+    ax = axis + t.ndim if axis < 0 else axis
+    if not 0 <= ax < t.ndim:
+        raise ValueError("axis %d is out of bounds for array of dimension %d" % (axis, t.ndim))
+    n = t.rshape[ax]
+    shape = tuple(d for i, d in enumerate(t.rshape) if i != ax)
+    c = ctx()
+
+    def elem(*idx):
+        def at(k):
+            full_idx = list(idx[:ax]) + [k] + list(idx[ax:])
+            v = _truthy(t._elem(*full_idx))
+            return b_not(v) if want_all else v
+
+        if isinstance(n, int):
+            hit = b_or(*[at(k) for k in range(n)]) if n else False
+        else:
+            k = sg.new_binder(c, "k")
+            c.binders.append((k, z3.And(k >= 0, k < zi(n))))
+            try:
+                u = at(k)
+            finally:
+                c.binders.pop()
+            hit = _exists(c, k, n, zb(u) if not isinstance(u, bool) else u)
+        return b_not(hit) if want_all else hit
+
+    if not shape:
+        return sbool(elem())
+    return STensor(shape, elem, "b")
 
 
 def _truthy(v):
